@@ -141,7 +141,25 @@ def run(ctx):
                 ctx.hit('dual-unsolvable:' + ','.join(_classify(pj, dj) or ['lp']),
                         {"primal_opt": float(sp_.objval), "dual_status": str(getattr(sd, 'status', None))}, case)
             else:
-                ctx.count('search:conic-dual-solver-failed')
+                # a solver that gives up says nothing; a *certificate of infeasibility* of the dual while the primal has an
+                # optimum contradicts duality (the generated conic programs are strictly feasible).  ECOS exit flag 1 =
+                # certified primal-infeasible (of the program it was given); for programs without exponential cones the
+                # verdict is cross-checked with Gurobi.
+                st_ = str(getattr(sd, 'status', '')).lower()
+                certified = sd is not None and (st_ == 'primal infeasible' or getattr(sd, 'status', None) == 1)
+                if certified and not pj['xmat']:
+                    try:
+                        from rsome import grb_solver
+                        with C.quiet():
+                            sg = grb_solver.solve(d, display=False)
+                        certified = sg is not None and sg.x is None and getattr(sg, 'status', None) in (3, 4)
+                    except Exception:
+                        certified = False
+                if certified:
+                    ctx.hit('dual-infeasible:' + ','.join(_classify(pj, dj) or ['conic']),
+                            {"primal_opt": float(sp_.objval), "dual_status": "certified infeasible"}, case)
+                else:
+                    ctx.count('search:conic-dual-solver-failed')
             continue
         tol = (1e-6 if not conic else 1e-4) * (1 + abs(sp_.objval))
         if abs(sp_.objval + sd.objval) > tol:
